@@ -195,7 +195,7 @@ CHECKS["C18"] = dict(
     explanation="bounded symbolic execution of the real BinaryServerProtocol (ProcessCommad will registration, Close) on a harness-defined net.Conn, LockDB.Lock/UnLock, the timeout sweep, and ProxyServerProtocol.ProcessLockResultCommandLocked with symbolic client ids",
     assumptions=["the connection is a harness-defined net.Conn; what makes Process() return is outside"],
     harnesses=[
-        dict(pkg="server", name="C18_wills", bound="0..3 registered wills, each a LOCK of one shared exclusive key (so order is observable) or an UNLOCK of the connection's hold; one hold and one queued request left behind; Close twice; clock advanced past the queued request's timeout", flags=["-witness", "1"], reach=["end", "closed"]),
+        dict(pkg="server", name="C18_wills", bound="0..3 registered wills, each a LOCK of one shared exclusive key (so order is observable) or an UNLOCK of the connection's hold; one hold and one queued request left behind; Close twice; clock advanced past the queued request's timeout", flags=["-witness", "1"], reach=["end", "closed", "inited"]),
         dict(pkg="server", name="C18_route", bound="a closed client's proxy with a symbolic 16-byte client id, two connected clients with symbolic client ids", flags=["-witness", "1"], reach=["end", "dropped", "rerouted"]),
         dict(pkg="server", name="C18_reconnect", bound="client announces its id (INIT) and leaves a queued request; reconnect under the same id before or after the old connection closes; the later grant must reach the reconnected connection", flags=["-witness", "1"], reach=["end"]),
         dict(pkg="server", name="C18_textwills", bound="a text connection (real TextServerProtocol over an in-memory net.Conn) that takes a hold and registers 0..6 wills in text form (LOCK / UNLOCK ... WILL 1), then Close twice; Close must return (a path on which it blocks is a violation)", flags=["-witness", "1"], reach=["end", "closed"], blocked="violation"),
@@ -241,3 +241,13 @@ _thorough("C09", "C09_ring8", "as C09_ring with every program of 8 operations", 
 _thorough("C11", "C11_ack5", "as C11_ack with every sequence of <=5 events", ["-witness", "200"])
 _thorough("C12", "C12_single7", "as C12_single with any order of at most 7 deliveries", ["-witness", "5000"])
 _thorough("C15", "C15_ops4", "as C15_ops with every sequence of 4 operations", ["-witness", "100"])
+
+
+def _quick(prop, name, bound, flags=None, reach=("end",), **kw):
+    CHECKS[prop]["harnesses"].append(dict(pkg="server", name=name, bound=bound, flags=list(flags or []), reach=list(reach), **kw))
+
+
+_quick("C05", "C05_longpair", "2..3 queued requests with T=60 s in ONE bucket of the long-wait table; at tick 45 / 50 / 59 one of them (first / middle / last) is granted or cancelled; tick by tick to T+3", ["-witness", "3"])
+_quick("C06", "C06_longpair", "2..3 holds with E=60 s (one key shared, or one key each) in ONE bucket of the long-expiry table; at tick 45 / 50 / 59 one of them is released; tick by tick to E+3", ["-witness", "3"])
+_quick("C18", "C18_reinit", "connection A (client id X) leaves a queued request and closes; connection C announces one or two ids out of {X, Y} in any order; the later grant is delivered to C exactly if its current id is X; client table empty after C closes", ["-witness", "1"], reach=["end", "rerouted", "dropped"])
+_quick("C13", "C13_bufresult", "buffered reply path of the binary protocol, one inductive step: writer buffer (4096 bytes) filled to within 0..320 bytes of its limit (or 0 / 64 / 164), one more result with a value frame of 0 / 8 / 63 / 64 / 100 / 3967 / 3968 / 4096 bytes", ["-witness", "200"])
